@@ -135,8 +135,12 @@ func (c *Ctx) global(g *ssa.Global) *Value {
 	if g.Pkg != nil && !c.inited[g.Pkg] {
 		c.inited[g.Pkg] = true
 		if init := g.Pkg.Func("init"); init != nil {
+			// package initialisation happens before main in Go: its writes are
+			// not accesses of whichever logical thread triggered the lazy init
+			c.noTrack++
 			c.explicitInit = true
 			c.call(init, nil)
+			c.noTrack--
 		}
 	}
 	return s
